@@ -472,7 +472,8 @@ def main():
            'scenarios': len(results), 'crash_points_by_backend': per, 'operations': kinds, 'runs_diverged_from_recorded_trace': skipped, 'diverged_by_scenario': div, 'diverged_examples': [r['skips'][0] for r in results if r.get('skips')][:5],
            'protocols_matching_model': len([r for r in results if r.get('protocol') is not None]) - len(proto_bad), 'protocols_compared': len([r for r in results if r.get('protocol') is not None]),
            'known_findings_reproduced': [k for k, _ in rep.known]}
-    write_evidence(prop, 'proof', cov, time.time() - t0, len(rep.violations),
+    cov['explanation'] = 'partial: machine-checked theorems about the protocol models, tied to the code by trace correspondence and by exhaustive injection on the real processes; the kernel (each system call atomic), sqlite and the file system are trusted'
+    write_evidence(prop, 'other', cov, time.time() - t0, len(rep.violations),
                    ['a crash is the death of the writing process (SIGKILL), not a power failure'])
     return rep.emit()
 
